@@ -350,7 +350,7 @@ func runC10(p *an.Prog, r *an.Run, tier string) {
 			if _, isAlloc := w.Root.(*ssa.Alloc); isAlloc && w.Path == "" {
 				continue
 			}
-			if isFreshRoot(p, sc, w.Root, 1) {
+			if isFreshRoot(p, sc, w.Root, 1) && !(w.Kind == "append" && shallowCopyOfShared(p, sc, fn, w.Root, 2)) {
 				continue
 			}
 			if len(w.Fields) == 0 && w.Kind == "store" {
@@ -469,46 +469,9 @@ func runC10(p *an.Prog, r *an.Run, tier string) {
 
 	// ---- no-shared-bigint
 	bad = nil
-	nMut := 0
-	for _, fn := range p.Repo {
-		if isTestDoublePkg(fn) || strings.HasSuffix(p.File(fn.Pos()), "testsuite.go") {
-			continue
-		}
-		for _, c := range an.Calls(fn, false) {
-			if !an.IsBigIntMutator(c) || len(c.Common().Args) == 0 {
-				continue
-			}
-			nMut++
-			root, path := an.RootPath(c.Common().Args[0])
-			al, ok := root.(*ssa.Alloc)
-			if !ok || path == "" {
-				// receiver is a parameter/field: Stats counters (fresh receiver) are covered by unsynchronised-write
-				if prm, isPrm := root.(*ssa.Parameter); isPrm && path != "" {
-					_ = prm
-				}
-				continue
-			}
-			// what was the struct initialised from?
-			for _, ref := range *al.Referrers() {
-				st, ok := ref.(*ssa.Store)
-				if !ok || st.Addr != ssa.Value(al) {
-					continue
-				}
-				switch src := st.Val.(type) {
-				case *ssa.Lookup:
-					if f := memMapField(src.X); f != "" {
-						bad = append(bad, an.ObjString(an.CallObj(c))+" in "+an.FuncName(fn)+" at "+p.Pos(c.Pos())+" mutates in place a "+f+" entry that was shallow-copied out of the shared map: every Balance handed out earlier changes with it")
-					}
-				case *ssa.Extract:
-					if g, ok := src.Tuple.(*ssa.Call); ok && isStoreMethodNamed(an.CallObj(g), "GetNodeBalance", "GetAccountBalance") {
-						bad = append(bad, an.ObjString(an.CallObj(c))+" in "+an.FuncName(fn)+" at "+p.Pos(c.Pos())+" mutates in place a Balance returned by "+an.ObjString(an.CallObj(g))+" (a snapshot that shares its digits with the store)")
-					}
-					if _, ok := src.Tuple.(*ssa.Next); ok {
-						bad = append(bad, an.ObjString(an.CallObj(c))+" in "+an.FuncName(fn)+" at "+p.Pos(c.Pos())+" mutates in place a value obtained by ranging over shared state")
-					}
-				}
-			}
-		}
+	sm, nMut := sharedBigIntMutations(p)
+	for _, m := range sm {
+		bad = append(bad, m.msg)
 	}
 	r.Floor("bigint-mutations", nMut, 10)
 	r.Check(len(bad) == 0, "no-shared-bigint", "repo", token.NoPos, "no in-place big.Int mutation of shallow copies of shared balances", "%s", strings.Join(bad, "; "))
@@ -783,10 +746,142 @@ func checkOneTxn(p *an.Prog, r *an.Run, rule string) {
 				if u := an.ErrEdges(regs[0].Call); u.Dropped {
 					bad = append(bad, "the transaction's error is dropped")
 				}
+				// no transaction inside the transaction: a store method (or db.Update/View) called from the closure commits
+				// on its own, before and independently of the enclosing transaction — a crash or conflict of the outer one
+				// leaves the inner change applied (a trial balance both migrated and kept)
+				if cl := regs[0].Closure; cl != nil {
+					for _, f := range an.WithAnon(cl) {
+						for _, c := range an.Calls(f, false) {
+							for _, cal := range p.CalleesAt(c) {
+								if cal == nil || !p.InRepo(cal) || cal == m {
+									continue
+								}
+								if w, ok := p.ReachesCall(cal, func(cc ssa.CallInstruction) bool {
+									g := an.CallObj(cc)
+									return g != nil && (g.Name() == "Update" || g.Name() == "View") && an.RecvNamed(g) != nil && an.RecvNamed(g).Obj().Name() == "DB"
+								}); ok {
+									bad = append(bad, "the transaction closure calls "+an.FuncName(cal)+" at "+p.Pos(c.Pos())+", which runs its own transaction ("+p.Pos(w.Pos())+"): that part commits separately from the rest")
+								}
+							}
+						}
+					}
+				}
 			}
 			r.Check(len(bad) == 0, rule, key, m.Pos(), "one "+txnKind(regs)+" region holds every access", "%s", strings.Join(bad, "; "))
 		}
 		r.Floor("badger-methods", n, 15)
 	}
 
+}
+
+type sharedMut struct {
+	fn  *ssa.Function
+	msg string
+}
+
+// sharedBigIntMutations lists in-place big.Int mutations whose receiver lives in a struct that was shallow-copied out
+// of shared state or returned by a balance getter (the copy shares its digit array with the original).
+func sharedBigIntMutations(p *an.Prog) (out []sharedMut, nMut int) {
+	for _, fn := range p.Repo {
+		if isTestDoublePkg(fn) || strings.HasSuffix(p.File(fn.Pos()), "testsuite.go") {
+			continue
+		}
+		for _, c := range an.Calls(fn, false) {
+			if !an.IsBigIntMutator(c) || len(c.Common().Args) == 0 {
+				continue
+			}
+			nMut++
+			root, path := an.RootPath(c.Common().Args[0])
+			al, ok := root.(*ssa.Alloc)
+			if !ok || path == "" {
+				// receiver is a parameter/field: Stats counters (fresh receiver) are covered by unsynchronised-write
+				if prm, isPrm := root.(*ssa.Parameter); isPrm && path != "" {
+					_ = prm
+				}
+				continue
+			}
+			// what was the struct initialised from?
+			for _, ref := range *al.Referrers() {
+				st, ok := ref.(*ssa.Store)
+				if !ok || st.Addr != ssa.Value(al) {
+					continue
+				}
+				switch src := st.Val.(type) {
+				case *ssa.Lookup:
+					if f := memMapField(src.X); f != "" {
+						out = append(out, sharedMut{fn, an.ObjString(an.CallObj(c)) + " in " + an.FuncName(fn) + " at " + p.Pos(c.Pos()) + " mutates in place a " + f + " entry that was shallow-copied out of the shared map: every Balance handed out earlier changes with it"})
+					}
+				case *ssa.Extract:
+					if g, ok := src.Tuple.(*ssa.Call); ok && isStoreMethodNamed(an.CallObj(g), "GetNodeBalance", "GetAccountBalance") {
+						out = append(out, sharedMut{fn, an.ObjString(an.CallObj(c)) + " in " + an.FuncName(fn) + " at " + p.Pos(c.Pos()) + " mutates in place a Balance returned by " + an.ObjString(an.CallObj(g)) + " (a snapshot that shares its digits with the store)"})
+					}
+					if _, ok := src.Tuple.(*ssa.Next); ok {
+						out = append(out, sharedMut{fn, an.ObjString(an.CallObj(c)) + " in " + an.FuncName(fn) + " at " + p.Pos(c.Pos()) + " mutates in place a value obtained by ranging over shared state"})
+					}
+				}
+			}
+		}
+	}
+	return out, nMut
+}
+
+// shallowCopyOfShared: root names a struct that is (possibly, at some call site) a by-value copy of an element of shared
+// state — a map element, a field or a global. The copy is private, but every slice in it still points at the shared
+// backing array, so an append through it writes shared memory.
+func shallowCopyOfShared(p *an.Prog, sc *Scope, fn *ssa.Function, root ssa.Value, depth int) bool {
+	switch x := root.(type) {
+	case *ssa.Alloc:
+		for _, ref := range *x.Referrers() {
+			st, ok := ref.(*ssa.Store)
+			if !ok || st.Addr != ssa.Value(x) {
+				continue
+			}
+			v := st.Val
+			if ex, ok := v.(*ssa.Extract); ok {
+				v = ex.Tuple
+			}
+			switch y := v.(type) {
+			case *ssa.Lookup:
+				r0, _, _ := addrChain(y.X)
+				if !isFreshRoot(p, sc, r0, 1) {
+					return true
+				}
+			case *ssa.UnOp:
+				if y.Op == token.MUL {
+					r0, _, _ := addrChain(y.X)
+					if _, isAlloc := r0.(*ssa.Alloc); !isAlloc && !isFreshRoot(p, sc, r0, 1) {
+						return true
+					}
+				}
+			}
+		}
+	case *ssa.Parameter:
+		if depth <= 0 {
+			return false
+		}
+		idx := -1
+		for i, prm := range fn.Params {
+			if prm == x {
+				idx = i
+			}
+		}
+		if idx < 0 {
+			return false
+		}
+		for _, site := range p.StaticSites(fn) {
+			caller := site.Parent()
+			if p.IsTestFunc(caller) || isTestDoublePkg(caller) {
+				continue
+			}
+			args := site.Common().Args
+			if idx >= len(args) {
+				continue
+			}
+			r0, _, _ := addrChain(args[idx])
+			if shallowCopyOfShared(p, sc, caller, r0, depth-1) {
+				return true
+			}
+		}
+	}
+	return false
 }
